@@ -583,6 +583,284 @@ theorem specExchangeIndex_some {c : Coll} {ex : Nat} (hW : WF c ex) (id x : Nat)
     exact this
   · simp [e]
 
+/-! ### ExecutionBuilder / MultiExchangeTxMap / routing -/
+
+theorem upsertG_of_not_mem {β : Type} (m : List (Nat × β)) (k : Nat) (v : β) (h : k ∉ m.map (·.1)) :
+    upsertG m k v = m ++ [(k, v)] := by
+  induction m with
+  | nil => rfl
+  | cons hd t ih =>
+    obtain ⟨a, b⟩ := hd
+    simp only [List.map_cons, List.mem_cons, not_or] at h
+    simp only [upsertG]
+    rw [if_neg (fun e => h.1 e.symm), ih h.2]; rfl
+
+theorem foldl_upsertG_of_nodup {β : Type} (l m : List (Nat × β)) (hn : (l.map (·.1)).Nodup)
+    (hd : ∀ x ∈ l, x.1 ∉ m.map (·.1)) :
+    l.foldl (fun m kv => upsertG m kv.1 kv.2) m = m ++ l := by
+  induction l generalizing m with
+  | nil => simp
+  | cons x t ih =>
+    simp only [List.foldl_cons]
+    rw [upsertG_of_not_mem m x.1 x.2 (hd x (by simp))]
+    simp only [List.map_cons, List.nodup_cons] at hn
+    rw [ih _ hn.2]
+    · simp
+    · intro y hy
+      simp only [List.map_append, List.map_cons, List.map_nil, List.mem_append, List.mem_cons,
+        List.not_mem_nil, or_false, not_or]
+      refine ⟨hd y (by simp [hy]), ?_⟩
+      intro e; apply hn.1; rw [← e]; exact List.mem_map_of_mem hy
+
+theorem collectG_of_nodup {β : Type} (l : List (Nat × β)) (hn : (l.map (·.1)).Nodup) :
+    collectG l = l := by
+  unfold collectG; rw [foldl_upsertG_of_nodup l [] hn (by simp)]; simp
+
+theorem lookup_removeKey {β : Type} (l : List (Nat × β)) (k k' : Nat) :
+    (removeKey l k).lookup k' = if k' = k then none else l.lookup k' := by
+  induction l with
+  | nil => simp [removeKey, List.lookup]
+  | cons hd t ih =>
+    obtain ⟨a, b⟩ := hd
+    unfold removeKey at ih ⊢
+    simp only [List.filter_cons]
+    by_cases hak : a = k
+    · subst hak
+      simp only [bne_self_eq_false, Bool.false_eq_true, if_false, ih, List.lookup]
+      by_cases e : k' = a
+      · simp [e]
+      · have : (k' == a) = false := by simpa using e
+        simp [e, this]
+    · have : (a != k) = true := by simpa using hak
+      simp only [this, if_true, List.lookup, ih]
+      by_cases e : k' = a
+      · subst e; simp [hak]
+      · have h2 : (k' == a) = false := by simpa using e
+        simp [h2]
+
+theorem eq_of_mem_nodup_map {α : Type} (f : α → Nat) {l : List α} (hn : (l.map f).Nodup) {a b : α}
+    (ha : a ∈ l) (hb : b ∈ l) (h : f a = f b) : a = b := by
+  induction l with
+  | nil => cases ha
+  | cons x t ih =>
+    simp only [List.map_cons, List.nodup_cons] at hn
+    rcases List.mem_cons.mp ha with rfl | ha' <;> rcases List.mem_cons.mp hb with rfl | hb'
+    · rfl
+    · exact absurd (h ▸ List.mem_map_of_mem (f := f) hb') hn.1
+    · exact absurd (h ▸ List.mem_map_of_mem (f := f) ha') hn.1
+    · exact ih hn.2 ha' hb'
+
+/-- the link `add_execution` creates for exchange `e` -/
+def mkLink (c : Coll) (e : Nat) : Option Link :=
+  match genMap c e with
+  | .ok m => some { client := e, index := m.exchange.key, map := m }
+  | .error _ => none
+
+theorem genMap_of_mem {c : Coll} {k : KExchange} (hk : k ∈ c.exchanges) :
+    ∃ m, genMap c k.id = .ok m := by
+  cases hg : genMap c k.id with
+  | ok m => exact ⟨m, rfl⟩
+  | error e =>
+    have := (genMap_error_iff c k.id).mp ⟨e, hg⟩
+    simp only [specHasLink, List.any_eq_false, beq_iff_eq] at this
+    exact absurd rfl (this k hk)
+
+theorem genMap_key {c : Coll} (hn : (c.exchanges.map (·.id)).Nodup) {k : KExchange}
+    (hk : k ∈ c.exchanges) {m : EMap} (hm : genMap c k.id = .ok m) : m.exchange.key = k.key := by
+  obtain ⟨ke, hke, rfl⟩ := genMap_ok hm
+  have h1 : ke ∈ c.exchanges := List.mem_of_find?_eq_some hke
+  have h2 : ke.id = k.id := by simpa using List.find?_some hke
+  rw [eq_of_mem_nodup_map KExchange.id hn h1 hk h2]; rfl
+
+theorem addExecution_ok {c : Coll} {added a : List (Nat × Link)} {ex : Nat}
+    (h : addExecution c added ex = .ok a) :
+    ∃ l, mkLink c ex = some l ∧ added.lookup ex = none ∧ a = added ++ [(ex, l)] := by
+  unfold addExecution at h
+  unfold mkLink
+  cases hg : genMap c ex with
+  | error e => rw [hg] at h; cases h
+  | ok m =>
+    rw [hg] at h
+    simp only at h
+    cases hl : added.lookup ex with
+    | some l => rw [hl] at h; cases h
+    | none =>
+      rw [hl] at h
+      injection h with h
+      exact ⟨_, rfl, rfl, h.symm⟩
+
+theorem addExecutions_lookup {c : Coll} {a0 a : List (Nat × Link)} {adds : List Nat}
+    (h : addExecutions c a0 adds = .ok a) (e : Nat) :
+    a.lookup e = match a0.lookup e with
+      | some l => some l
+      | none => if e ∈ adds then mkLink c e else none := by
+  induction adds generalizing a0 with
+  | nil =>
+    simp only [addExecutions] at h
+    injection h with h; subst h
+    cases a0.lookup e <;> simp
+  | cons ex rest ih =>
+    simp only [addExecutions] at h
+    cases h1 : addExecution c a0 ex with
+    | error er => rw [h1] at h; cases h
+    | ok a1 =>
+      rw [h1] at h
+      obtain ⟨l, hl, hnone, rfl⟩ := addExecution_ok h1
+      rw [ih h, List.lookup_append]
+      cases h0 : a0.lookup e with
+      | some l0 => simp
+      | none =>
+        by_cases hex : e = ex
+        · subst hex; simp [List.lookup, hl]
+        · have : (e == ex) = false := by simpa using hex
+          simp [List.lookup, this, hex]
+
+theorem buildSlots_eq (exs : List KExchange) (hn : (exs.map (·.id)).Nodup) (added : List (Nat × Link))
+    (hk : ∀ k ∈ exs, ∀ l, added.lookup k.id = some l → k.key = l.index) :
+    buildSlots exs added = some (exs.map fun k => (k.id, added.lookup k.id)) := by
+  induction exs generalizing added with
+  | nil => rfl
+  | cons k rest ih =>
+    simp only [List.map_cons, List.nodup_cons] at hn
+    simp only [buildSlots]
+    cases hl : added.lookup k.id with
+    | none =>
+      simp only
+      rw [ih hn.2 added (fun k' hk' => hk k' (List.mem_cons_of_mem _ hk'))]
+      simp [hl]
+    | some l =>
+      simp only
+      rw [if_pos (hk k (by simp) l hl)]
+      have hrest : ∀ k' ∈ rest, (removeKey added k.id).lookup k'.id = added.lookup k'.id := by
+        intro k' hk'
+        rw [lookup_removeKey, if_neg]
+        intro e; apply hn.1; rw [← e]; exact List.mem_map_of_mem hk'
+      rw [ih hn.2 (removeKey added k.id) (fun k' hk' l' hl' =>
+        hk k' (List.mem_cons_of_mem _ hk') l' (by rw [← hrest k' hk']; exact hl'))]
+      simp only [Option.map_some, List.map_cons, Option.some.injEq, List.cons.injEq, hl, true_and]
+      exact List.map_congr_left fun k' hk' => by simp only [hrest k' hk']
+
+/-- The transmitter table `ExecutionBuilder::build` produces for a well-formed collection: one slot
+per exchange, in exchange-index order; the slot of an exchange an execution was added for holds
+that exchange's own link, every other slot is empty. -/
+theorem buildTxMap_eq {c : Coll} (hW : WFX c) {adds : List Nat} {added : List (Nat × Link)}
+    (h : addExecutions c [] adds = .ok added) :
+    buildTxMap c added =
+      some (c.exchanges.map fun k => (k.id, if k.id ∈ adds then mkLink c k.id else none)) := by
+  have hlook : ∀ e, added.lookup e = if e ∈ adds then mkLink c e else none := by
+    intro e; rw [addExecutions_lookup h e]; simp [List.lookup]
+  unfold buildTxMap
+  rw [buildSlots_eq c.exchanges hW.2 added]
+  · simp only [Option.map_some, Option.some.injEq]
+    rw [collectG_of_nodup]
+    · exact List.map_congr_left fun k _ => by rw [hlook]
+    · rw [List.map_map]; exact hW.2
+  · intro k hk l hl
+    rw [hlook] at hl
+    split at hl
+    · unfold mkLink at hl
+      cases hg : genMap c k.id with
+      | error e => rw [hg] at hl; cases hl
+      | ok m =>
+        rw [hg] at hl
+        injection hl with hl; subst hl
+        exact (genMap_key hW.2 hk hg).symm
+    · cases hl
+
+theorem buildExecution_ok {c : Coll} (hW : WFX c) {adds : List Nat} {r : Option TxMap}
+    (h : buildExecution c adds = .ok r) :
+    r = some (c.exchanges.map fun k => (k.id, if k.id ∈ adds then mkLink c k.id else none)) := by
+  unfold buildExecution at h
+  cases ha : addExecutions c [] adds with
+  | error e => rw [ha] at h; cases h
+  | ok added =>
+    rw [ha] at h
+    injection h with h
+    rw [← h, buildTxMap_eq hW ha]
+
+/-- `add_*` succeeds for every duplicate-free sequence of exchanges of the collection. -/
+theorem addExecutions_succeeds {c : Coll} {adds : List Nat} (hn : adds.Nodup)
+    (hm : ∀ e ∈ adds, ∃ k ∈ c.exchanges, k.id = e) (a0 : List (Nat × Link))
+    (h0 : ∀ e ∈ adds, a0.lookup e = none) :
+    ∃ a, addExecutions c a0 adds = .ok a := by
+  induction adds generalizing a0 with
+  | nil => exact ⟨a0, rfl⟩
+  | cons ex rest ih =>
+    obtain ⟨k, hk, rfl⟩ := hm ex (by simp)
+    obtain ⟨m, hg⟩ := genMap_of_mem hk
+    simp only [List.nodup_cons] at hn
+    simp only [addExecutions, addExecution, hg, h0 k.id (by simp)]
+    apply ih hn.2 (fun e he => hm e (List.mem_cons_of_mem _ he))
+    intro e he
+    rw [List.lookup_append, h0 e (List.mem_cons_of_mem _ he)]
+    have : (e == k.id) = false := by
+      simp only [beq_eq_false_iff_ne, ne_eq]; intro e'; exact hn.1 (e' ▸ he)
+    simp [List.lookup, this]
+
+/-- `MultiExchangeTxMap::find` on the built table. -/
+theorem find_built {c : Coll} (adds : List Nat) (x : Nat) :
+    TxMap.find (c.exchanges.map fun k => (k.id, if k.id ∈ adds then mkLink c k.id else none)) x =
+      match c.exchanges[x]? with
+      | none => .error .exchangeIndex
+      | some k =>
+        if k.id ∈ adds then
+          match mkLink c k.id with
+          | some l => .ok l
+          | none => .error .exchangeIndex
+        else .error .exchangeIndex := by
+  unfold TxMap.find
+  rw [List.getElem?_map]
+  cases c.exchanges[x]? with
+  | none => rfl
+  | some k =>
+    simp only [Option.map_some]
+    split <;> rename_i h
+    · simp only [Option.some.injEq, Prod.mk.injEq] at h
+      split at h
+      · rw [if_pos ‹_›, h.2]
+      · cases h.2
+    · by_cases hk : k.id ∈ adds
+      · rw [if_pos hk]
+        cases hl : mkLink c k.id with
+        | none => rfl
+        | some l => exact absurd (by simp [hk, hl]) (h k.id l)
+      · rw [if_neg hk]
+
+/-- the manager's outbound translation needs only `Indexed` and distinct exchange ids -/
+theorem managerClientRequest_eq {c : Coll} {ex : Nat} {m : EMap} (hW : WFX c)
+    (hm : genMap c ex = .ok m) (o : OEvent Nat Nat) :
+    managerClientRequest m o = specOrderRequest c ex o := by
+  have A := agrees_of_indexed hW.1 hm
+  unfold managerClientRequest orderRequest specOrderRequest
+  rw [findExchangeId_eq A hW.2, findInstrumentName_eq A]
+  cases specExchangeId c ex o.key.exchange <;> cases specInstrumentName c ex o.key.instrument <;> rfl
+
+theorem route_eq_spec {c : Coll} (hW : WFX c) {adds : List Nat} {t : TxMap}
+    (hb : buildExecution c adds = .ok (some t)) (o : OEvent Nat Nat) :
+    route t o = specRoute c adds o := by
+  have ht := buildExecution_ok hW hb
+  injection ht with ht; subst ht
+  unfold route specRoute
+  rw [find_built]
+  cases hx : c.exchanges[o.key.exchange]? with
+  | none => rfl
+  | some k =>
+    simp only
+    by_cases hk : k.id ∈ adds
+    · rw [if_pos hk, if_pos hk]
+      obtain ⟨m, hg⟩ := genMap_of_mem (List.mem_of_getElem? hx)
+      have hl : mkLink c k.id = some { client := k.id, index := m.exchange.key, map := m } := by
+        unfold mkLink; rw [hg]
+      rw [hl]
+      simp only
+      rw [managerClientRequest_eq hW hg]
+      have hid : specExchangeId c k.id o.key.exchange = some k.id :=
+        (specExchangeId_some c k.id _ k.id).mpr ⟨rfl, k, hx, rfl⟩
+      unfold specOrderRequest
+      rw [hid]
+      cases specInstrumentName c k.id o.key.instrument <;> rfl
+    · rw [if_neg hk, if_neg hk]
+
 /-- ok-results of an `Except` read through its `toOption`. -/
 theorem eq_ok_iff_toOption {ε α : Type} (r : Except ε α) (a : α) : r = .ok a ↔ r.toOption = some a := by
   cases r <;> simp [Except.toOption]
